@@ -3,6 +3,7 @@ package main
 import (
 	"encoding/json"
 	"fmt"
+	"net/url"
 	"reflect"
 
 	"github.com/google/jsonschema-go/jsonschema"
@@ -19,6 +20,7 @@ func runDefaults(hdr Header, c any, src string) CaseResult {
 	insts := abs.Seq(hdr["INSTS"])
 	after := abs.Seq(cm["after"])
 	text := abs.SchemaJSON(cm["s"])
+	rootText := text
 	res := CaseResult{Key: text}
 	fail := func(kind string, conc, exp, got any) {
 		res.Failures = append(res.Failures, Failure{Kind: kind, Source: src, Abstract: c, Concrete: conc, Expected: exp, Got: got})
@@ -28,7 +30,33 @@ func runDefaults(hdr Header, c any, src string) CaseResult {
 		fail("unmarshal", json.RawMessage(text), "accepted", err.Error())
 		return res
 	}
-	rs, err := s.Resolve(nil)
+	// a root that refers to a Loader document: fresh parse of the remote document for every Resolve
+	var opts func(vd bool) *jsonschema.ResolveOptions
+	if rem, ok := cm["rem"]; ok {
+		remText, remURI, rootURI := abs.SchemaJSON(rem), abs.URIText(cm["remURI"]), abs.URIText(cm["rootURI"])
+		text = fmt.Sprintf(`{"root":%s,"loader":{%q:%s}}`, text, remURI, remText)
+		res.Key = text
+		opts = func(vd bool) *jsonschema.ResolveOptions {
+			return &jsonschema.ResolveOptions{BaseURI: rootURI, ValidateDefaults: vd, Loader: func(u *url.URL) (*jsonschema.Schema, error) {
+				if u.String() != remURI {
+					return nil, fmt.Errorf("no document at %s", u)
+				}
+				var d jsonschema.Schema
+				if err := json.Unmarshal([]byte(remText), &d); err != nil {
+					return nil, err
+				}
+				return &d, nil
+			}}
+		}
+	} else {
+		opts = func(vd bool) *jsonschema.ResolveOptions {
+			if !vd {
+				return nil
+			}
+			return &jsonschema.ResolveOptions{ValidateDefaults: true}
+		}
+	}
+	rs, err := s.Resolve(opts(false))
 	if err != nil {
 		fail("resolve", json.RawMessage(text), "accepted", err.Error())
 		return res
@@ -97,8 +125,8 @@ func runDefaults(hdr Header, c any, src string) CaseResult {
 	}
 	// ValidateDefaults
 	var s2 jsonschema.Schema
-	json.Unmarshal([]byte(text), &s2)
-	rs2, verr := s2.Resolve(&jsonschema.ResolveOptions{ValidateDefaults: true})
+	json.Unmarshal([]byte(rootText), &s2)
+	rs2, verr := s2.Resolve(opts(true))
 	res.Evals++
 	wantOK := cm["vd"] == "ok"
 	if (verr == nil) != wantOK {
